@@ -1041,6 +1041,117 @@ def gen_asarray_shim(repo):
     return m
 
 
+def gen_src_reads(repo):
+    """T28: the order in which the copying paths bind, guard, resize and read their sources (Py/SrcReads.lean): `_append_array`,
+    `_append_waveforms` / `_append_spectrums` and the copy branch of `_load_array` of the three buffer classes"""
+    ast = T.ast
+    m = T.Module(f"{repo}/src/nitypes/waveform/_numeric.py", "Gen.SrcReads")
+    m.extra_imports = ["NiVerif.Py.SrcReads"]
+    GUARD_IF = "if np.may_share_memory({n}, self._data):\n    {n} = {n}.copy()"
+
+    def events(mod, cls, name, params):
+        fn = mod.find_func(cls, name)
+        evs = [f".bind {json.dumps(p_)}" for p_ in params]
+        alias = {}                       # loop variable -> the list it iterates
+
+        def names_read(e):
+            base = e
+            while isinstance(base, (ast.Subscript, ast.Attribute)):
+                base = base.value
+            return base.id if isinstance(base, ast.Name) else None
+
+        def walk(ss, in_loop):
+            for st in ss:
+                src = ast.unparse(st)
+                if isinstance(st, ast.If):
+                    body1 = [x for x in st.body if not (isinstance(x, ast.Expr) and isinstance(x.value, ast.Constant))]
+                    if isinstance(st.test, ast.Call) and ast.unparse(st.test.func) == "np.may_share_memory" and not st.orelse and len(body1) == 1:
+                        n_ = ast.unparse(st.test.args[0])
+                        if src == GUARD_IF.format(n=n_) and ast.unparse(st.test.args[1]) == "self._data":
+                            evs.append(f".guard {json.dumps(n_)}")
+                            continue
+                    if "may_share_memory" in ast.unparse(st.test):
+                        # the aliasing test with further conditions attached, or another body
+                        tgt = [ast.unparse(x.targets[0]) for x in ast.walk(st) if isinstance(x, ast.Assign) and ".copy()" in ast.unparse(x.value)]
+                        for n_ in tgt:
+                            evs.append(f".guardWeak {json.dumps(n_)}")
+                        continue
+                    evs.append(".condBegin"); walk(st.body, in_loop); evs.append(".condEnd")
+                    if st.orelse:
+                        evs.append(".condBegin"); walk(st.orelse, in_loop); evs.append(".condEnd")
+                    continue
+                if isinstance(st, ast.For):
+                    it = st.iter
+                    srcs = [ast.unparse(a) for a in it.args] if isinstance(it, ast.Call) and ast.unparse(it.func) in ("zip", "enumerate") else [ast.unparse(it)]
+                    tv = [x.id for x in ast.walk(st.target) if isinstance(x, ast.Name)]
+                    if isinstance(it, ast.Call) and ast.unparse(it.func) == "zip" and isinstance(st.target, ast.Tuple) and len(st.target.elts) == len(it.args):
+                        for t_, a_ in zip(st.target.elts, it.args):
+                            if isinstance(t_, ast.Name):
+                                alias[t_.id] = ast.unparse(a_)
+                    else:
+                        for v_ in tv:
+                            alias[v_] = srcs[0]
+                    walk(st.body, True)
+                    continue
+                if isinstance(st, ast.Assign) and len(st.targets) == 1:
+                    tgt = st.targets[0]
+                    if isinstance(tgt, ast.Subscript) and ast.unparse(tgt.value) == "self._data":
+                        n_ = names_read(st.value)
+                        if n_ is None:
+                            raise T.Untranslatable(f"{cls}.{name}: the buffer is written from `{ast.unparse(st.value)[:60]}`", st, mod.path)
+                        n_ = alias.get(n_, n_)
+                        evs.append(f".write {json.dumps(n_)} {'true' if in_loop else 'false'}")
+                        continue
+                    if ast.unparse(tgt) == "self.capacity":
+                        evs.append(".resize")
+                        continue
+                    if isinstance(tgt, ast.Name):
+                        v = st.value
+                        if isinstance(v, ast.ListComp) and isinstance(v.elt, ast.IfExp) and "may_share_memory" in ast.unparse(v.elt.test):
+                            t_ = v.elt.test
+                            strong = (isinstance(t_, ast.Call) and ast.unparse(t_.func) == "np.may_share_memory" and ast.unparse(t_.args[1]) == "self._data"
+                                      and ast.unparse(v.elt.body) == ast.unparse(v.elt.orelse) + ".copy()" and not v.generators[0].ifs)
+                            evs.append(f".bind {json.dumps(tgt.id)}")
+                            evs.append(f"{'.guard' if strong else '.guardWeak'} {json.dumps(tgt.id)}")
+                            continue
+                        reads_source = any(isinstance(x, ast.Name) and (x.id in params or x.id in alias or x.id in bound) for x in ast.walk(v)) and \
+                            any(k in ast.unparse(v) for k in ("raw_data", ".data", "[")) and not ast.unparse(v).startswith(("len(", "sum(", "arg_to_"))
+                        if reads_source and tgt.id not in ("offset", "new_timing", "sample_count", "start_index", "sample_counts"):
+                            evs.append(f".bind {json.dumps(tgt.id)}")
+                            bound.add(tgt.id)
+                        continue
+                if isinstance(st, ast.Expr) and isinstance(st.value, ast.Call) and ast.unparse(st.value.func) == "self._increase_capacity":
+                    evs.append(".resize")
+                    continue
+                if isinstance(st, (ast.With, ast.Try)):
+                    raise T.Untranslatable(f"{cls}.{name}: unsupported statement {type(st).__name__}", st, mod.path)
+        bound = set(params)
+        walk(fn.body, False)
+        k = 0
+        while k + 1 < len(evs):                       # conditional blocks without events say nothing
+            if evs[k] == ".condBegin" and evs[k + 1] == ".condEnd":
+                del evs[k:k + 2]
+                k = max(k - 1, 0)
+            else:
+                k += 1
+        return evs
+    out = []
+    for path, cls, many in (("_numeric.py", "NumericWaveform", "_append_waveforms"), ("_spectrum.py", "Spectrum", "_append_spectrums"), ("_digital/_waveform.py", "DigitalWaveform", "_append_waveforms")):
+        mod = T.Module(f"{repo}/src/nitypes/waveform/{path}", "Gen.SrcReads")
+        tag = {"NumericWaveform": "numeric", "Spectrum": "spectrum", "DigitalWaveform": "digital"}[cls]
+        for fname, params in (("_append_array", ["array"]), (many, []), ("_load_array", ["array"])):
+            evs = events(mod, cls, fname, params)
+            lean = f"{tag}_{fname.strip('_')}"
+            m.out.append(f"/-- generated from `{cls}.{fname}`: source bindings, aliasing guards, resizes and buffer writes in program order -/")
+            m.out.append(f"@[pygen] def {lean} : List Py.SrcReads.Ev := [" + ", ".join(evs) + "]")
+            m.out.append("")
+            out.append(lean)
+    m.out.append("/-- all nine event lists -/")
+    m.out.append("@[pygen] def all_paths : List (String × List Py.SrcReads.Ev) := [" + ", ".join(f"({json.dumps(x)}, {x})" for x in out) + "]")
+    m.out.append("")
+    return m
+
+
 MODULES = [
     # (output file, builder, dependencies by output name)
     ("TimeValueTuple", lambda repo, deps: gen_time_value_tuple(repo), []),
@@ -1073,6 +1184,7 @@ MODULES = [
     ("Conversion", lambda repo, deps: gen_conversion(repo, deps["TimeDelta"]), ["TimeDelta"]),
     ("ComplexConvert", lambda repo, deps: gen_complex_convert(repo, deps["ComplexDtypes"]), ["ComplexDtypes"]),
     ("AsarrayShim", lambda repo, deps: gen_asarray_shim(repo), []),
+    ("SrcReads", lambda repo, deps: gen_src_reads(repo), []),
 ]
 
 
